@@ -76,11 +76,13 @@ Example C01_nv_stage3 :
   fst (run 5000 nv_s3) = [[49]; [57]; [49; 54]; [103; 116]; [50; 53]; [54]]%N.
 Proof. vm_compute. repeat split. Qed.
 
-(* ---------------------------------------------------------------- stage 3b: from loops (named counter, literal step) *)
+(* ---------------------------------------------------------------- stage 3b: from loops (named counter; bounds and step are
+   arbitrary call-free expressions, the step may mention the counter) *)
 Definition vj : str := [106%N].   Definition vn : str := [110%N].
 Definition nv_s4 : source :=
   [ SAssign vn (EInt 7); SAssign vacc (EInt 0);
-    SFrom (EBin BSub (EVar vn) (EInt 7)) (EVar vn) true (Some (EInt 2)) (Some vi) false
+    SFrom (EBin BSub (EVar vn) (EInt 7)) (EBin BSub (EBin BMul (EVar vn) (EInt 2)) (EInt 7)) true
+          (Some (EBin BAdd (EBin BMod (EVar vi) (EInt 2)) (EInt 2))) (Some vi) false
       [ SIf (EBin BEq (EVar vi) (EInt 2)) [ SContinue ];
         SFrom (EInt 0) (EVar vi) false None (Some vj) false
           [ SIf (EBin BGt (EVar vj) (EInt 3)) [ SBreak ];
